@@ -14,6 +14,9 @@ PROP_FILE = 'props/C17.v'
 GLS = universe.FILES['main.glsdefs']
 
 POOL = [
+    ({'latex': '\\newtheorem{lemma}{Lemma}\\begin{lemma}[Zorn] A \\end{lemma}\n'}, 'declares a theorem'),
+    ({'latex': '\\documentclass{article}\\usepackage{geometry}\\begin{lemma}[Zorn] B \\end{lemma}\n'},
+     'uses the theorem undeclared'),
     ({'latex': '\\newcommand{\\pa}{defined A} X \\pa{} Y'}, 'defs'),
     ({'latex': 'X \\pa{} Y \\pb{} Z'}, 'uses undefined'),
     ({'latex': '\\usepackage{glossaries}\\LTinput{main.glsdefs}\nA \\gls{pp} \\Gls{ex} B',
@@ -55,7 +58,19 @@ POOL = [
       'pack': 'xcolor'}, 'article+xcolor'),
     ({'latex': '\\textcolor{red}{important} \\colorbox{blue}{b}', 'dcls': 'article', 'pack': '',
       'unkn': True}, 'article, xcolor macros unknown'),
+    ({'latex': '\\usepackage[poorman]{cleveref}\\YYCleverefInput{one.sed}\nA \\cref{sec:a} B \\Cref{eq:b} C '
+               '\\crefrange{sec:a}{eq:b} D',
+      'files': {'one.sed': 's/\\\\cref{sec:a}/section~1/g\ns/\\\\Cref{eq:b}/Equation~(2)/g\n'
+                           's/\\\\crefrange{sec:a}{eq:b}/sections~1 to~2/g\n'}}, 'cleveref, first sed file'),
+    ({'latex': '\\usepackage[poorman]{cleveref}\\YYCleverefInput{two.sed}\nA \\cref{sec:a} B \\Cref{eq:b} C '
+               '\\crefrange{sec:a}{eq:b} D \\cref{sec:z} E',
+      'files': {'two.sed': 's/\\\\cref{sec:z}/section~9/g\n'}}, 'cleveref, second sed file'),
 ]
+# documents the model does not cover (package cleveref): history check only
+NOMODEL = ('cleveref',)
+# histories every run includes: (labels of the calls)
+DIRECTED = [('cleveref, first sed file', 'cleveref, second sed file'),
+            ('cleveref, second sed file', 'cleveref, first sed file', 'cleveref, second sed file')]
 
 
 def mk(j):
@@ -116,9 +131,10 @@ def run(tier, seed, build, res):
             ref.append(norm(r[0]))
     # the model: a function of the call
     universe.scratch_dir()
+    mpool = [(j, r) for j, r in zip(pool, ref) if not any(w in j['latex'] for w in NOMODEL)]
     outs = core.run_model([parsecase.model_line_t2t(parsecase.T2T.from_json(j))
-                           for j in pool], shards=8)
-    for j, o, r in zip(pool, outs, ref):
+                           for j, _ in mpool], shards=8)
+    for (j, r), o in zip(mpool, outs):
         mo = parsecase.parse_model_t2t(o)
         res.count('model', json.dumps(j, sort_keys=True))
         if r is not None and (mo[0] != r[0] or (r[0] == 'OK' and norm(mo[1]) != r[1])):
@@ -130,6 +146,9 @@ def run(tier, seed, build, res):
         pairs = rng.sample(pairs, 120)
     for a, b in pairs:
         hists.append([a, b])
+    labels = [l for _, l in POOL]
+    for d in DIRECTED:
+        hists.append([labels.index(l) for l in d])
     for _ in range(40 if tier == 'quick' else 1500):
         hists.append([rng.choice(idx) for _ in range(rng.randint(3, 6))])
     # pack several histories into one worker call?  No: each history needs
